@@ -229,6 +229,8 @@ pub fn parse_file_internal(context: &ParseContext) -> Result<(), Error> {
         messages,
     } = context.clone();
     let include_paths = include_paths.borrow_mut();
+    #[cfg(feature = "verif")]
+    let verif_requested = current_path.clone();
 
     let current_path = if !current_path.as_path().exists() {
         let mut new_path = PathBuf::new();
@@ -250,6 +252,8 @@ pub fn parse_file_internal(context: &ParseContext) -> Result<(), Error> {
         current_path
     };
 
+    #[cfg(feature = "verif")]
+    crate::verif::include(&verif_requested, &current_path);
     let mut file = match File::open(&current_path) {
         Ok(file) => file,
         Err(err) => bail!(
@@ -308,6 +312,8 @@ fn skip<'a>(
                 let name = context.macros.name.borrow().clone();
                 let mut items = vec![];
                 while let Some((line_num, line)) = iter.next() {
+                    #[cfg(feature = "verif")]
+                    crate::verif::step();
                     if let Ok(item) = document::line(line) {
                         if let Document::DirectiveLine(_, directive, _) = item {
                             if other == NextItem::EndMacro && directive == Directive::EndMacro
@@ -323,6 +329,8 @@ fn skip<'a>(
                 context.macros.macroses.borrow_mut().insert(name, items);
             } else {
                 while let Some((num, line)) = iter.next() {
+                    #[cfg(feature = "verif")]
+                    crate::verif::step();
                     if let Ok(item) = document::line(line) {
                         if let Document::DirectiveLine(_, directive, _) = item {
                             if other == NextItem::EndIf {
@@ -374,6 +382,8 @@ pub fn parse_iter<'a>(
         if let Some((line_num, line)) = skip(iter, context, next_item) {
             next_item = NextItem::NewLine; // clear conditional flag to typical state
             let line_num = line_num + 1;
+            #[cfg(feature = "verif")]
+            crate::verif::line(&context.current_path, line_num);
             let parsed_item = document::line(line);
             if let Ok(item) = parsed_item {
                 match item {
